@@ -2177,6 +2177,28 @@ def _induction_vars(fn):
     return changed[0]
 
 
+def _setattr_statements(fn):
+    """setattr(obj, 'name', v)  as a statement   ->   obj.name = v        (a constant identifier; obj a plain name / attribute chain)"""
+    hit = False
+    for n in ast.walk(fn):
+        for fld in ('body', 'orelse', 'finalbody'):
+            blk = getattr(n, fld, None)
+            if not (isinstance(blk, list) and blk and isinstance(blk[0], ast.stmt)):
+                continue
+            for i, st in enumerate(blk):
+                if isinstance(st, ast.Expr) and isinstance(st.value, ast.Call) and isinstance(st.value.func, ast.Name) and st.value.func.id == 'setattr' and len(st.value.args) == 3 \
+                        and not st.value.keywords and isinstance(st.value.args[1], ast.Constant) and isinstance(st.value.args[1].value, str) and st.value.args[1].value.isidentifier() \
+                        and not st.value.args[1].value.startswith('__') and _pure(st.value.args[0]) and not any(isinstance(a, ast.Starred) for a in st.value.args):
+                    if any(isinstance(y, ast.Name) and y.id == 'setattr' and isinstance(y.ctx, ast.Store) for y in ast.walk(fn)):
+                        continue
+                    c = st.value
+                    blk[i] = ast.copy_location(ast.Assign(targets=[ast.Attribute(value=c.args[0], attr=c.args[1].value, ctx=ast.Store())], value=c.args[2]), st)
+                    hit = True
+    if hit:
+        ast.fix_missing_locations(fn)
+    return hit
+
+
 def _yield_from_genexp(fn):
     """yield from (E for x in R if C)   ->   for x in R: if C: yield E"""
     for n in ast.walk(fn):
@@ -3354,6 +3376,7 @@ def simplify_function(fn, ctx, inliner, cls):
         changed |= _globals_subscripts(fn)
         changed |= _yield_from_genexp(fn)
         changed |= _for_over_genexp(fn)
+        changed |= _setattr_statements(fn)
         changed |= _conditional_displays(fn)
         if _propagate_locals(fn, ctx):
             changed = True
